@@ -15,7 +15,7 @@ func init() {
 	register(&Prop{
 		ID:    "C04",
 		Level: "exploration",
-		Rule: "case = (server capability set, sequence of <=12 raw commands whose string arguments are rendered as atom / quoted / synchronising literal / non-synchronising literal with announced sizes 0, small, 4096, 4097, 5000 and over the APPEND limit, payloads containing CRLF and command-like text with unique poison markers; commands that fail before their literal is reached; APPEND with trailing garbage; IDLE with asynchronous updates; AUTHENTICATE exchanges), network segmentation and schedule. " +
+		Rule: "case = (server capability set, sequence of <=12 raw commands whose string arguments are rendered as atom / quoted / synchronising literal / non-synchronising literal with announced sizes 0, small, 4096, 4097, 5000 and over the APPEND limit up to 2^64-1, payloads containing CRLF and command-like text with unique poison markers; commands that fail before their literal is reached; APPEND with trailing garbage; IDLE with asynchronous updates; AUTHENTICATE exchanges; IDLE / SASL continuation lines longer than the server's line buffer with command-like tails; FETCH partials up to 2^64), network segmentation and schedule. " +
 			"Non-trivial: at least one command was completely sent. Distinct: distinct event-log hashes.",
 		Components:   "real: imapserver.Conn/Server, internal/imapwire (woven); stub: recording Session (accepts everything), scripted raw peer that obeys literal synchronisation, network, clock, scheduler",
 		Assumptions:  []string{"the peer never sends input whose framing is ambiguous under RFC 9051/7888 (those inputs are exercised for robustness in C06 only)", "both RFC-permitted reactions to an over-long non-synchronising literal (consume then reject; reject and close) are accepted"},
@@ -64,6 +64,17 @@ func (g *c04gen) payload(n int) []byte {
 	return b[:n]
 }
 
+// longLine is one line (no line break inside) longer than the server's 4096-byte line buffer whose tail looks like a
+// command with a poison tag: whatever the server does with the line, the tail is not a command.
+func (g *c04gen) longLine() string {
+	k := len(g.poison)
+	marker := fmt.Sprintf("POISON%d", k)
+	g.poison = append(g.poison, marker, fmt.Sprintf("PZN%d", k))
+	pad := []int{4096, 4096, 4095, 4097, 8192, 5000}[g.t.Choose(6)]
+	fill := []string{"A", "QUJD", "DONE "}[g.t.Choose(3)]
+	return strings.Repeat(fill, pad/len(fill)+1)[:pad] + fmt.Sprintf("PZN%d CREATE %s", k, marker)
+}
+
 // str renders a string argument in one of the four wire forms.
 func (g *c04gen) str(plain string) []rawPart {
 	sizes := []int{3, 40, 0, 4096, 4097, 5000, 200, 1}
@@ -73,6 +84,10 @@ func (g *c04gen) str(plain string) []rawPart {
 	case 2:
 		return []rawPart{{Text: plain}}
 	case 3:
+		if g.t.Choose(10) == 9 {
+			// (a conforming peer waits for the answer, which must be a refusal; no payload exists)
+			return []rawPart{{IsLit: true, Announce: g.hugeSize(), Sync: true}}
+		}
 		return []rawPart{{IsLit: true, Lit: g.payload(sizes[g.t.Choose(len(sizes))]), Sync: true}}
 	case 4:
 		return []rawPart{{IsLit: true, Lit: g.payload(sizes[g.t.Choose(len(sizes))])}}
@@ -123,7 +138,7 @@ func (g *c04gen) one() {
 		lit := rawPart{IsLit: true, Lit: g.payload(sizes[g.t.Choose(len(sizes))]), Sync: g.t.Choose(2) == 0}
 		if g.t.Choose(12) == 0 {
 			lit.Lit = nil
-			lit.Announce = 100*1024*1024 + 1 + int64(g.t.Choose(3))
+			lit.Announce = g.hugeSize()
 			lit.Sync = true // a conforming peer waits; the server must refuse before any payload
 		}
 		parts := cat("APPEND ", g.str(mb), " ")
@@ -152,6 +167,10 @@ func (g *c04gen) one() {
 		c.Cont = []string{"DONE"}
 		c.IdleFor = []time.Duration{0, time.Second, 3 * time.Minute, 40 * time.Second}[g.t.Choose(4)]
 		c.NoWait = false
+		if g.t.Choose(5) == 4 {
+			// the idler ends IDLE with one over-long line that carries command-like text past the server's line buffer
+			c.Cont = []string{g.longLine()}
+		}
 	case 16:
 		var c *rawCmd
 		switch g.t.Choose(4) {
@@ -166,6 +185,10 @@ func (g *c04gen) one() {
 		default:
 			c = g.add("AUTHENTICATE", cat("AUTHENTICATE LOGIN"))
 			c.Cont = []string{"*"}
+		}
+		if len(c.Cont) > 0 && g.t.Choose(6) == 5 {
+			// an over-long SASL response line carrying command-like text
+			c.Cont = []string{g.longLine()}
 		}
 		c.NoWait = false
 	case 17:
@@ -184,8 +207,13 @@ func (g *c04gen) one() {
 	case 22:
 		g.add("SELECT", cat("SELECT ", g.str(mb)))
 	default:
-		g.add("FETCH", cat("UID FETCH 1 (UID BODY[])"))
+		g.add("FETCH", cat("UID FETCH 1 (UID BODY[]"+[]string{"", "", "<0.5>", "<9223372036854775807.2>", "<9223372036854775808.1>", "<1.18446744073709551615>", "<18446744073709551616.1>"}[g.t.Choose(7)]+")"))
 	}
+}
+
+// hugeSize is an announced literal size over the 100 MiB APPEND limit, up to the top of the 64-bit range.
+func (g *c04gen) hugeSize() uint64 {
+	return []uint64{100*1024*1024 + 1, 100*1024*1024 + 2, 100*1024*1024 + 3, 1 << 32, 1<<63 - 1, 1 << 63, 1<<63 + 4097, ^uint64(0)}[g.t.Choose(8)]
 }
 
 func runC04(r *R) {
@@ -315,7 +343,7 @@ func c04Judge(r *R, peer *rawPeer, b *stubBackend, env *stubEnv, poison []string
 		}
 		for _, m := range poison {
 			if strings.Contains(rp.Tag, m) {
-				r.Violate("smuggled-literal", "tagged reply to literal payload", "the server answered tag %q, which only ever occurred inside a literal payload: %q", rp.Tag, clipStr(string(rp.Line.Raw), 200))
+				r.Violate("smuggled-literal", "tagged reply to literal payload", "the server answered tag %q, which only ever occurred inside a literal payload or in the middle of an over-long line: %q", rp.Tag, clipStr(string(rp.Line.Raw), 200))
 			}
 		}
 		seen[rp.Tag]++
@@ -344,6 +372,7 @@ func c04Judge(r *R, peer *rawPeer, b *stubBackend, env *stubEnv, poison []string
 			break
 		}
 	}
+	judgeInvites(r, peer.outcomes, "run")
 	if gotConts > conts {
 		r.Violate("unsolicited-continuation", "extra +", "the server sent %d continuation requests but only %d were solicited by a synchronising literal, AUTHENTICATE or IDLE", gotConts, conts)
 	}
@@ -351,7 +380,7 @@ func c04Judge(r *R, peer *rawPeer, b *stubBackend, env *stubEnv, poison []string
 		for _, a := range c.Args {
 			for _, m := range poison {
 				if strings.HasPrefix(m, "POISON") && (a == m || (c.Method != "Append" && strings.Contains(a, m) && !strings.Contains(a, "\r\n"))) {
-					r.Violate("smuggled-literal", "backend call from literal payload", "backend call %s carries %q, which only ever occurred as command text inside a literal payload", c, m)
+					r.Violate("smuggled-literal", "backend call from literal payload", "backend call %s carries %q, which only ever occurred as command-like text inside a literal payload or in the middle of an over-long line", c, m)
 				}
 			}
 		}
